@@ -111,6 +111,32 @@ def gen_cases(sch, rng, tier):
         stats[f'maxdict_{opts["maxdict"]}'] += 1
         stats['records'] += nrec
         stats['big_containers'] += int(big)
+    # container-length boundaries 61..66: every position changed alone (values-only multimap path,
+    # 64-bit masks), then a key change, then shrink/grow by one across the boundary
+    def kv(i, v):
+        return ['6b%02x' % i, [3, str(v)]]
+    def metrics_with(attrs, env, buckets):
+        return [[env], ['6d', '', '', '2', [], [], '0', False], ['', [], '0'], ['', '', '', [], '0'], attrs,
+                ['1', '2', [3, ['5', None, None, None, buckets]], []]]
+    for n in (61, 62, 63, 64, 65, 66):
+        attrs = [kv(i, i) for i in range(n)]
+        env = [['65%02x' % i, '%02x' % i] for i in range(n)]
+        buckets = [str(i) for i in range(n)]
+        ops = [{'op': 'set', 'v': metrics_with(attrs, env, buckets), 'freeze': True}, {'op': 'w'}]
+        step = 0
+        for idx in sorted(set([0, 1, n - 1, n - 2, 61, 62, 63, 64]) & set(range(n))):
+            step += 1
+            attrs = [list(x) for x in attrs]; attrs[idx] = kv(idx, 1000 + step)
+            env = [list(x) for x in env]; env[idx] = [env[idx][0], 'ff%02x' % step]
+            buckets = list(buckets); buckets[idx] = str(5000 + step)
+            ops += [{'op': 'set', 'v': metrics_with(attrs, env, buckets), 'freeze': True}, {'op': 'w'}]
+        attrs = [list(x) for x in attrs]; attrs[n - 1] = ['6b6b', attrs[n - 1][1]]
+        ops += [{'op': 'set', 'v': metrics_with(attrs, env, buckets), 'freeze': True}, {'op': 'w'}]
+        ops += [{'op': 'set', 'v': metrics_with(attrs[:-1], env[:-1], buckets[:-1]), 'freeze': True}, {'op': 'w'}]
+        ops += [{'op': 'set', 'v': metrics_with(attrs + [kv(99, 7)], env + [['7a', '01']], buckets + ['9']), 'freeze': True}, {'op': 'w'}, {'op': 'f'}]
+        for compr in (0, 1):
+            cases.append(dict(id=f'boundary-{n}-c{compr}', root='Metrics', opts={'compression': compr, 'flags': 0}, ops=ops))
+            stats['boundary_cases'] += 1
     for sc in scenarios(sch):
         for compr in (0, 1):
             cases.append(dict(id=sc['id'] + f'-c{compr}', root=sc['root'],
